@@ -39,6 +39,42 @@ theorem C11_recycle_clean (cfg : Cfg) (r : Req) (acts : List Act) :
   recycle_clean (runHandler_rootFirst cfg _ acts (fresh_rootFirst cfg r))
 
 
+/-- **C11_recycle_truncates**: the drop handler's truncation is unconditional — whatever
+containers were pushed on top of the application container (by scopes, resources, or by a
+middleware calling `ServiceRequest::add_data_container` before routing) and whatever the resource
+path, the matched flag and the match info are (in particular for a request that *no* route matched:
+`resourcePath = []`), the recycled allocation has `appData = [root]` and is clean. -/
+theorem C11_recycle_truncates (cfg : Cfg) (i : Inner) (pushed : List Nat) (rp : List Nat) (m : Bool) :
+    (recycle { i with appData := cfg.root :: pushed, resourcePath := rp, matched := m }).appData = [cfg.root] ∧
+    Clean cfg (recycle { i with appData := cfg.root :: pushed, resourcePath := rp, matched := m }) := by
+  refine ⟨by simp [recycle], recycle_clean ⟨pushed, rfl⟩⟩
+
+/-- the seeded variant C11-3 of `HttpRequest::drop`: truncate only when the request descended
+into a scope or resource -/
+def recycleIfRouted (i : Inner) : Inner :=
+  let i := if i.resourcePath.isEmpty then i else { i with appData := i.appData.take 1 }
+  let i := { i with extensions := [] }
+  { i with connData := none }
+
+/-- witness: with the conditional truncation a request that no route matched, to which the
+app-level middleware attached container 105, goes back to the pool still carrying it — the
+allocation is not clean, and `reinit` of it differs from a fresh allocation in what
+`app_data::<T>()` resolves to -/
+theorem witness_conditional_truncate_leaks :
+    let leaked := recycleIfRouted (pushData (fresh 0 ⟨⟨"GET", "/nope", "11", none, [("x-t", "5")]⟩, none, []⟩) (some 105))
+    leaked.appData = [0, 105] ∧ ¬ Clean theCfg leaked ∧
+    appDataGet theCfg (reinit leaked ⟨⟨"GET", "/", "11", none, []⟩, none, []⟩) 4 = some 5 ∧
+    appDataGet theCfg (fresh 0 ⟨⟨"GET", "/", "11", none, []⟩, none, []⟩) 4 = none := by
+  refine ⟨by decide, ?_, by decide, by decide⟩
+  intro h
+  have : ([0, 105] : List Nat) = [0] := h.1
+  cases this
+
+/-- the real `recycle` on the same allocation is clean (non-vacuity of `C11_recycle_truncates`
+for an un-routed request with a middleware container) -/
+example : Clean theCfg (recycle (pushData (fresh 0 ⟨⟨"GET", "/nope", "11", none, [("x-t", "5")]⟩, none, []⟩) (some 105))) :=
+  ⟨rfl, rfl, rfl⟩
+
 /-! ## Invariant over all histories -/
 
 /-- **C11_pool_inv**: after ANY history of operations (requests with arbitrary handler effects,
